@@ -266,6 +266,18 @@ theorem C13_family_resolve_all (strict : Bool) (g : Graph) (x : Obj) : Allowed (
     subst this
     exact isFamily_pdfValueError
 
+/-- Round 6, counter-example to a bound on the TOTAL work of `resolve_all` by the input size: the guard cuts cycles
+by path, so a value shared along two paths is resolved twice.  On the 10 objects `k: [k+1 0 R k+1 0 R]` it makes
+2047 `getobj` calls, on 11 objects 4095 (2ⁿ⁺¹ − 1; the harness measures the same numbers on the implementation,
+`ra_calls` op).  Only the DEPTH bound `C13_fuel_resolve_all` holds.  Not reachable by a single fault of a seed document
+(it needs n edited objects), hence recorded as an observation, not as a finding — see docs/C13.md. -/
+theorem C13_resolve_all_calls_cex :
+    resolveAllCalls (diamond 10 0) (.ref 1) = 2047 ∧ (diamond 10 0).length = 10 ∧
+    resolveAllCalls (diamond 11 0) (.ref 1) = 4095 := by
+  refine ⟨?_, by decide, ?_⟩ <;>
+    simp [resolveAllCalls, resolveAllBudget, graphDepth, Obj.depth, depthList, diamond, resolveAllCallsFuel,
+      resolveAllCallsList, List.lookup, Gen.Lenient.resolveAllGuard]
+
 /-! ## page-tree walk (`PDFPage.create_pages.depth_first_search`) -/
 
 /-- Termination for EVERY object graph — Kids cycles, a node listed twice, Parent used as a kid, missing
